@@ -300,6 +300,7 @@ public:
 			request().set_content_filter(*this);
 			std::string v;
 			if ((v = request().get("cl_limit")) != "") request().limits().content_length_limit(atoll(v.c_str()));
+			if ((v = request().get("mp_limit")) != "") request().limits().multipart_form_data_limit(atoll(v.c_str()));
 			if ((v = request().get("setbuf")) != "") request().setbuf(atoi(v.c_str()));
 			ev("{\"ev\":\"headers\",\"app\":\"rawup\",\"token\":" + jstr(token_of(request())) + "}");
 			return;
